@@ -20,9 +20,9 @@ func init() { registry["C17"] = c17Oracle }
 type h5Construct struct {
 	name   string
 	opener string
-	typ    int    // token type of the construct
-	tokIdx int    // index of the construct's token in the stream of opener+body
-	offAdj int    // token offset = len(opener) + offAdj
+	typ    int // token type of the construct
+	tokIdx int // index of the construct's token in the stream of opener+body
+	offAdj int // token offset = len(opener) + offAdj
 	alpha  []string
 	skip   func(body string) bool // bodies that select a different construct
 	find   func(b string) (start, after int)
@@ -210,6 +210,6 @@ func TestC17(t *testing.T) {
 		if rapid.Bool().Draw(rt, "src") {
 			return ev.Case{Kind: "inv", In: g.Draw(rt, "in")}
 		}
-		return ev.Case{Kind: "inv", In: gen.Mutate(rt, rapid.SampledFrom(corpus.HTML).Draw(rt, "base"), gen.FragHTML)}
+		return ev.Case{Kind: "inv", In: gen.Mutate(rt, rapid.SampledFrom(corp().HTML).Draw(rt, "base"), gen.FragHTML)}
 	})
 }
